@@ -15,6 +15,9 @@ pub(crate) enum CodeAddress {
     OffsetInFunction { id: Id<Function>, offset: usize },
     /// The address is boundary of functions. Equals to OffsetInFunction with offset(section size).
     FunctionEdge { id: Id<Function> },
+    /// The address is the first byte of a function's body, right after its size field. This is
+    /// where DWARF puts a function's `DW_AT_low_pc`.
+    FunctionStart { id: Id<Function> },
     /// The address is unknown.
     Unknown,
 }
@@ -54,6 +57,25 @@ impl CodeAddressGenerator {
         address: usize,
         search_preference: AddressSearchPreference,
     ) -> CodeAddress {
+        // The start of a function's body has to follow the function itself: neither the first
+        // original instruction (code may have been inserted in front of it) nor a fixed offset
+        // from the function's entry (the size field may have changed its length) stays there.
+        let containing = self.address_convert_table.binary_search_by(|(range, _)| {
+            if range.end <= address {
+                Ordering::Less
+            } else if address < range.start {
+                Ordering::Greater
+            } else {
+                Ordering::Equal
+            }
+        });
+        if let Ok(i) = containing {
+            let (range, id) = &self.address_convert_table[i];
+            if body_start(range) == address {
+                return CodeAddress::FunctionStart { id: *id };
+            }
+        }
+
         match self
             .instrument_address_convert_table
             .binary_search_by_key(&address, |i| i.0)
@@ -119,6 +141,17 @@ impl CodeAddressGenerator {
     }
 }
 
+/// Given the range of a function's entry in the code section (size field included), returns the
+/// offset of the first byte after the size field.
+fn body_start(entry: &Range<usize>) -> usize {
+    let len = entry.end - entry.start;
+    // the size field is a LEB128 of the length of what follows it
+    let size_field_len = (1..=5usize)
+        .find(|l| len > *l && ((len - l) as u64) < 1u64 << (7 * l))
+        .unwrap_or(0);
+    entry.start + size_field_len
+}
+
 /// Converts CodeAddress to translated code address
 pub(crate) struct CodeAddressConverter<'a> {
     code_transform: &'a CodeTransform,
@@ -168,6 +201,16 @@ impl<'a> CodeAddressConverter<'a> {
                     .binary_search_by_key(&id, |i| i.0)
                 {
                     Ok(id) => Some(self.code_transform.function_ranges[id].1.end),
+                    Err(_) => None,
+                }
+            }
+            CodeAddress::FunctionStart { id } => {
+                match self
+                    .code_transform
+                    .function_ranges
+                    .binary_search_by_key(&id, |i| i.0)
+                {
+                    Ok(id) => Some(body_start(&self.code_transform.function_ranges[id].1)),
                     Err(_) => None,
                 }
             }
